@@ -197,8 +197,22 @@ def m_tostr(base):
     return f
 
 
+def m_divmod(it, br, a, b):
+    from kt.kt import floor_div, py_mod, is_int_term
+    if is_sym(a) or is_sym(b):
+        if not (is_int_term(a) and is_int_term(b)):
+            raise Unsupported('divmod on reals')
+        if is_sym(b):
+            if br.decide(b == 0):
+                raise Raised('ZeroDivisionError')
+        elif b == 0:
+            raise Raised('ZeroDivisionError')
+        return (floor_div(a, b), py_mod(a, b))
+    return divmod(a, b)
+
+
 def m_isinstance(it, br, obj, cls):
     return isinstance(obj, cls)
 
 
-DIGIT_MODELS = {int: m_int, str: m_str, len: m_len, set: m_set, bin: m_tostr(2), oct: m_tostr(8), hex: m_tostr(16), isinstance: m_isinstance}
+DIGIT_MODELS = {int: m_int, str: m_str, len: m_len, set: m_set, bin: m_tostr(2), oct: m_tostr(8), hex: m_tostr(16), isinstance: m_isinstance, divmod: m_divmod}
